@@ -289,6 +289,9 @@ def check_special(case):
         dyn = all(t == "" for t in texts) and len(mine) == 1
         if lit == dyn:
             viol.append((f"default-not-exactly-once:select", f"default={case['name']!r} texts={texts} actions={len(mine)}"))
+        elif dyn:
+            # the default names a choice of the question's own list: it is a selection, not arithmetic
+            viol.append((f"choice-name-default-became-expression:{case['name']}", f"setvalue value={mine[0].get('value')!r} (evaluates as XPath arithmetic, not as the choice)"))
     return {"outcome": "static" if not mine else "dynamic-model", "nt": not viol, "viol": viol, "tr": ntr}
 
 
